@@ -32,7 +32,7 @@ func init() {
 						add("VerifC04Free", cs("k", 1, "H", H, "V", V, "dh0", o[0], "dv0", o[1], "idem", 1))
 					}
 				}
-				pairs := [][2][2]int{{{1, 1}, {1, 1}}, {{0, 0}, {1, 1}}, {{1, 0}, {0, 1}}, {{1, 1}, {-1, 0}}, {{0, 0}, {0, 0}}, {{1, 0}, {1, 0}}, {{0, 1}, {0, 1}}}
+				pairs := [][2][2]int{{{1, 1}, {1, 1}}, {{0, 0}, {1, 1}}, {{1, 0}, {0, 1}}, {{1, 1}, {-1, 0}}, {{0, 0}, {0, 0}}, {{1, 0}, {1, 0}}, {{0, 1}, {0, 1}}, {{-1, 0}, {-1, 0}}, {{0, -1}, {0, -1}}, {{1, -1}, {1, -1}}}
 				for _, p := range pairs {
 					if okOff(p[0]) && okOff(p[1]) {
 						add("VerifC04Free", cs("k", 2, "H", H, "V", V, "dh0", p[0][0], "dv0", p[0][1], "dh1", p[1][0], "dv1", p[1][1], "idem", 1))
